@@ -32,8 +32,19 @@ def tens(enc, layout=0):
     return t
 
 
+# An einsum equation means the same under any injective renaming of its index letters: the specification's
+# names are mapped onto changing alphabets (the whole range a-z and upper case is the caller's to use).
+_POOLS = ["abcdefgh", "zyxwvuts", "ijklmnop", "pqrzstuv", "xzyabcde", "ZzYyXxWw", "nmzlkjih"]
+_EQ = [0]
+
+
 def eq_string(opt):
-    return "%s,%s->%s" % ("".join(opt[1]), "".join(opt[2]), "".join(opt[3]))
+    _EQ[0] += 1
+    pool = _POOLS[_EQ[0] % len(_POOLS)]
+    names = sorted(set(opt[1]) | set(opt[2]) | set(opt[3]))
+    ren = {n: pool[i] for i, n in enumerate(names)} if len(names) <= len(pool) and all(len(n) == 1 and n.isalpha() for n in names) \
+        else {n: n for n in names}
+    return "%s,%s->%s" % tuple("".join(ren[x] for x in part) for part in (opt[1], opt[2], opt[3]))
 
 
 class Outcome:
